@@ -205,7 +205,7 @@ def gen_plan(rng, tier, idx, opts):
                     j = rng.randrange(len(live))
                     if j != i:
                         ops.append({"op": "merge_all", "dst": h, "src": live[j]})
-        return {"world": "results", "level": "set", "mode": mode, "names": names, "ops": ops}
+        return {"world": "results", "level": "set", "mode": mode, "names": names, "ops": ops, "accumulate": rng.random() < 0.4}
     # combine
     names = rng.sample(["SUM", "RATIO", "MISC", "CHOICE"], rng.randint(1, 3))
     nunp = rng.choice([1, 1, 2])
@@ -351,10 +351,13 @@ def _exec_set(plan, res, log, pid, mode):
         try:
             if kind == "rep":
                 s = SimulationResults()
+                acc_ = bool(plan.get("accumulate"))
                 for nm in names:
                     o = op["obs"][nm]
                     if nm == "CHOICE":
-                        s.add_result(Result.create(nm, TYPES[nm], o[0], CHOICE_NUM))
+                        s.add_result(Result.create(nm, TYPES[nm], o[0], CHOICE_NUM, accumulate_values=acc_))
+                    elif acc_:
+                        s.add_result(Result.create(nm, TYPES[nm], o[0], o[1] if nm == "RATIO" else 0, accumulate_values=True))
                     elif nm == "RATIO":
                         s.add_new_result(nm, TYPES[nm], o[0], o[1])
                     else:
@@ -429,8 +432,12 @@ def _exec_set(plan, res, log, pid, mode):
                                   {"op": kind, "level": "set"})
                     break
                 for r, ol in zip(lst, slots):
-                    want, _ = expected_stats(ol, nm, False)
+                    acc_ = bool(plan.get("accumulate"))
+                    want, _ = expected_stats(ol, nm, acc_)
                     why = compare_stats(stats_of(r, nm), want, nm, mode, ol)
+                    if why is None and acc_ and nm != "MISC":
+                        if list(r._value_list) != [x[0] for x in ol] or (nm == "RATIO" and list(r._total_list) != [x[1] for x in ol]):
+                            why = "accumulated value list %s is not the list of observations %s" % (list(r._value_list), [x[0] for x in ol])
                     if why:
                         add_violation(res, pid + ".grouping", step, "set %s result %s after %s: %s" % (a, nm, kind, why),
                                       {"op": kind, "level": "set", "type": nm})
